@@ -284,6 +284,21 @@ func TestC06Mode(t *testing.T) {
 	emit([]aggRep{{1, 5, "bb", 3}, {2, 5, "aa", 4}}, "corpus:F01")
 	emit([]aggRep{{1, 2, "aa", 3}, {2, 1, "bb", 4}, {3, 1, "bb", 5}, {4, 2, "cc", 5}}, "corpus:F01")
 	emit([]aggRep{{1, 2, "aa", 3}, {2, 2, "aa", 4}, {3, 1, "bb", 5}}, "corpus")
+	// powers in the millions (one reporter outweighing several that agree with each other), fewer repetitions
+	savedReps := reps
+	reps = 3
+	emit([]aggRep{{1, 3_500_000, "aa", 3}, {2, 1_200_000, "bb", 4}, {3, 1_100_000, "bb", 5}}, "corpus:large-power")
+	emit([]aggRep{{1, 1_000_001, "aa", 3}, {2, 600_000, "bb", 4}, {3, 400_000, "bb", 5}}, "corpus:large-power")
+	for i := 0; i < count(6, 60); i++ {
+		big := uint64(1_000_000 + r.Intn(4_000_000))
+		k1 := uint64(1 + r.Intn(int(big)))
+		rs := []aggRep{{1, big, "aa", 3}, {2, k1, "bb", 4}, {3, big - k1 + uint64(r.Intn(3)) - 1, "bb", 5}}
+		if r.Intn(2) == 0 {
+			rs = append(rs, aggRep{4, uint64(1 + r.Intn(2_000_000)), pick(r, "aa", "cc"), 6})
+		}
+		emit(rs, "large-power")
+	}
+	reps = savedReps
 	for i := 0; i < n; i++ {
 		rs := genReports(r, true, r.Intn(25) == 0)
 		emit(rs)
@@ -343,6 +358,19 @@ func TestC06EndBlock(t *testing.T) {
 			rs := genReports(r, forMode, false)
 			if len(rs) > 6 {
 				rs = rs[:6]
+			}
+			if i%40 == 7 && q == 0 {
+				// a round with more than a hundred reporters (every one of them must be aggregated)
+				m := pick(r, 100, 101, 130)
+				rs = nil
+				for j := 0; j < m; j++ {
+					rs = append(rs, aggRep{who: j, power: uint64(1 + r.Intn(9)), value: fmt.Sprintf("%04x", 1000+r.Intn(60)), blk: uint64(1 + r.Intn(50))})
+				}
+				if forMode {
+					for j := range rs {
+						rs[j].value = pick(r, "0a", "0b", "0c")
+					}
+				}
 			}
 			if forMode && r.Intn(2) == 0 && len(rs) >= 3 {
 				// mode != median on purpose: values a<c<b with powers 2,3,2 style
